@@ -192,7 +192,7 @@ theorem factorRun_prod {o : Oracle σ} (hok : OracleOK o) {fuel n : Nat} {alg : 
 
 /-- **totality of the entry point** from totality of the inner run -/
 theorem factor_total_aux {o : Oracle σ} (hok : OracleOK o) (fuel n : Nat) (alg : Algo) (os : σ)
-    (hsel : SelectorPre alg n) (hfuel : bits n ≤ fuel) (hrho : alg = .rho → RhoNeverFails o) :
+    (hsel : SelectorPre alg n) (hfuel : bits n ≤ fuel) :
     (∃ l, factor o fuel n alg os = .ok l ∧ l.prod = n) ∨ factor o fuel n alg os = .failure := by
   rw [factor_eq]
   split
@@ -201,7 +201,7 @@ theorem factor_total_aux {o : Oracle σ} (hok : OracleOK o) (fuel n : Nat) (alg 
     split
     · exact Or.inr rfl
     · have hle := trialDiv_cofactor_le h0
-      obtain ⟨s', hs'⟩ := factorImpl_total_aux hok alg hrho fuel (trialDiv n).1
+      obtain ⟨s', hs'⟩ := factorImpl_total_aux hok alg fuel (trialDiv n).1
         (initSt os (trialDiv n).2) (trialDiv_cofactor_pos h0)
         (Nat.le_trans (bits_le_of_le hle) hfuel) (hsel.mono hle)
       have hrun : factorRun o fuel n alg os = .ok s' := hs'
